@@ -230,7 +230,7 @@ func child(r *ev.Run, p *plan) {
 		r.Add("rounds", 1)
 		r.Add("sessions", int64(len(sc.Clients)))
 		r.Add("client_calls_completed", out.Commands)
-		r.Add("connector_updates", int64(len(sc.Updates)))
+		r.Add("connector_updates", int64(len(sc.Updates))+out.Flooded)
 		r.Add("hook_events", int64(len(out.Events)))
 		for k, v := range out.Teardowns {
 			teardowns[k] += int64(v)
